@@ -235,18 +235,22 @@ def r05c(ctx):
     calls = [n for n in ast.walk(fn) if isinstance(n, ast.Call) and dotted(n.func) in ("FromPandas", "FromPandasDivisions")]
     if not calls:
         raise AnalysisError("anchor vanished: from_pandas no longer builds FromPandas")
+    r05c_defs = flow.Defs(fn)
     for i, call in enumerate(calls):
         cid = f"_collection.from_pandas:FromPandas#{i}"
         arg = call.args[0] if call.args else None
+        wrapped = arg.args[0] if isinstance(arg, ast.Call) and dotted(arg.func) == "_BackendData" and arg.args else None
+        if isinstance(wrapped, ast.Name):
+            wrapped = r05c_defs.single_value(wrapped.id, call) or wrapped
+        # an explicit opt-out parameter whose default keeps the copy: `data.copy() if copy else data` with copy=True
+        if isinstance(wrapped, ast.IfExp) and isinstance(wrapped.test, ast.Name) and _default_is_true(fn, wrapped.test.id):
+            wrapped = wrapped.body
         good = (
-            isinstance(arg, ast.Call)
-            and dotted(arg.func) == "_BackendData"
-            and arg.args
-            and isinstance(arg.args[0], ast.Call)
-            and isinstance(arg.args[0].func, ast.Attribute)
-            and arg.args[0].func.attr == "copy"
-            and not arg.args[0].args
-            and not any(k.arg == "deep" and not (isinstance(k.value, ast.Constant) and k.value.value is True) for k in arg.args[0].keywords)
+            isinstance(wrapped, ast.Call)
+            and isinstance(wrapped.func, ast.Attribute)
+            and wrapped.func.attr == "copy"
+            and not wrapped.args
+            and not any(k.arg == "deep" and not (isinstance(k.value, ast.Constant) and k.value.value is True) for k in wrapped.keywords)
         )
         if good:
             ctx.ok(cid, mod.loc(call), unparse(arg))
@@ -266,6 +270,18 @@ def r05c(ctx):
                 ctx.ok(cid, c.module.loc(p.stmt), "a slice of the private copy")
             else:
                 ctx.bad(cid, c.module.loc(p.stmt), f"`return {unparse(v)}` can hand the wrapped source object itself (not an .iloc slice / copy) to the graph: a task or the user editing a computed partition in place changes the source for every later compute")
+
+
+def _default_is_true(fn, name):
+    a = fn.args
+    pos = a.posonlyargs + a.args
+    for p, d in zip(pos[len(pos) - len(a.defaults) :], a.defaults):
+        if p.arg == name:
+            return isinstance(d, ast.Constant) and d.value is True
+    for p, d in zip(a.kwonlyargs, a.kw_defaults):
+        if p.arg == name:
+            return isinstance(d, ast.Constant) and d.value is True
+    return False
 
 
 def _derives_from_slice(v, defs, seen, depth=0):
